@@ -14,7 +14,7 @@ from allmydata.interfaces import ExistingChildError
 from allmydata.monitor import Monitor
 from allmydata.immutable.upload import FileHandle
 from allmydata.mutable.publish import MutableFileHandle
-from allmydata.mutable.common import MODE_READ
+from allmydata.mutable.common import MODE_READ, NotWriteableError
 from allmydata.util import log, base32
 from allmydata.util.encodingutil import quote_output
 from allmydata.blacklist import (
@@ -52,6 +52,11 @@ class ReplaceMeMixin:
         file_format = get_format(req, "CHK")
         mutable_type = get_mutable_type(file_format)
         if mutable_type is not None:
+            if self.parentnode.is_readonly():
+                # refuse before a new (and then orphaned) mutable file is
+                # created on the grid; add_file() below makes the same check
+                # for immutable uploads.
+                raise NotWriteableError()
             data = MutableFileHandle(req.content)
             keypair = get_keypair(req)
             d = client.create_mutable_file(data, version=mutable_type, unique_keypair=keypair)
@@ -94,6 +99,9 @@ class ReplaceMeMixin:
         file_format = get_format(req, "CHK")
         contents = req.fields["file"]
         if file_format in ("SDMF", "MDMF"):
+            if self.parentnode.is_readonly():
+                # see replace_me_with_a_child
+                raise NotWriteableError()
             mutable_type = get_mutable_type(file_format)
             uploadable = MutableFileHandle(contents.file)
             keypair = get_keypair(req)
